@@ -174,6 +174,14 @@ def render_val(spec, container="np", index=None):
             return wrap_arrow(to_arrow_array(spec), container, spec.get("chunks"), index, name)
         s = pd.Series(arr, index=index, name=name).dt.tz_localize("UTC").dt.tz_convert(zone)
         return s
+    if container in ("pa", "pa_chunked", "pd_arrow", "pd_arrow_chunked", "pl") and any(v is None for v in spec["vals"]) \
+            and np.dtype(dtype).kind in "iub":
+        # integers / booleans with nulls have no NumPy form: go through Arrow directly
+        return wrap_arrow(to_arrow_array(spec), container, spec.get("chunks"), index, name)
+    if container == "series_nullable" and any(v is None for v in spec["vals"]) and np.dtype(dtype).kind in "iub":
+        dt_ = np.dtype(dtype)
+        pdt = {"i": "I", "u": "UI"}.get(dt_.kind)
+        return pd.Series(spec["vals"], index=index, name=name, dtype=(pdt + f"nt{dt_.itemsize * 8}") if pdt else "boolean")
     arr = val_numpy(spec)
     if container == "np":
         return arr
